@@ -382,7 +382,9 @@ class ExecS(Exec):
             ast.copy_location(x, s)
         cur = self.ev(load, st)
         rhs = self.ev(s.value, st)
-        if isinstance(cur, ListV) and isinstance(s.op, ast.Add):
+        if isinstance(s.op, ast.Add) and isinstance(rhs, ObjV) and (rhs.cls, "__concat__") in self.world.handlers:
+            v = self.world.handlers[(rhs.cls, "__concat__")](self, st, cur, rhs, s)
+        elif isinstance(cur, ListV) and isinstance(s.op, ast.Add):
             v = ListV(cur.items + (rhs.items if isinstance(rhs, ListV) else tuple((z3.BoolVal(True), i) for i in rhs.items)))
         elif isinstance(cur, ObjV) and isinstance(s.op, ast.Add) and cur.cls not in ("__kwdict__",):
             # x += y on an object: x = x.__iadd__(y)
